@@ -418,6 +418,66 @@ SELFRET_CELLS = [("cell_gs_all_clone_selfret", "Gs", ["Clone", "So", "Sd"], ["Cl
                  ("cell_gs_noso_dup_selfret", "Gs", ["Clone", "Sd"], ["Sd"], "Box", "selfret", True)]
 
 
+HANDFILL_SRC = r'''
+// ---- hand-written cells: vtable fillers written by hand (the documented manual route), enabling optional traits in every order
+#[cglue_trait]
+pub trait Hfm { fn hfm(&self) -> u64; }
+#[cglue_trait]
+pub trait Ha { fn ha(&self) -> u64; }
+#[cglue_trait]
+pub trait Hb { fn hb(&self) -> u64; }
+#[cglue_trait]
+pub trait Hc { fn hc(&self) -> u64; }
+cglue_trait_group!(Gh, Hfm, { Ha, Hb, Hc });
+macro_rules! hand_filled {
+    ($ty:ident, $fname:ident, [$($vt:ident => $en:ident),*], [$wa:expr, $wb:expr, $wc:expr], $what:expr) => {
+        pub struct $ty(pub u64);
+        impl Hfm for $ty { fn hfm(&self) -> u64 { self.0 * 10 } }
+        impl Ha for $ty { fn ha(&self) -> u64 { self.0 * 10 + 1 } }
+        impl Hb for $ty { fn hb(&self) -> u64 { self.0 * 10 + 2 } }
+        impl Hc for $ty { fn hc(&self) -> u64 { self.0 * 10 + 3 } }
+        impl<'cglue_a, CGlueInst: ::core::ops::Deref<Target = $ty>, CGlueCtx: cglue::trait_group::ContextBounds> GhVtableFiller<'cglue_a, CGlueInst, CGlueCtx> for $ty
+        where
+            $(&'cglue_a $vt<'cglue_a, GhContainer<CGlueInst, CGlueCtx>>: 'cglue_a + Default,)*
+        {
+            fn fill_table(table: GhVtables<'cglue_a, CGlueInst, CGlueCtx>) -> GhVtables<'cglue_a, CGlueInst, CGlueCtx> {
+                table$(.$en())*
+            }
+        }
+        pub fn $fname() -> Result<u64, (String, String)> {
+            let what = $what;
+            let g = group_obj!($ty(7) as Gh);
+            if g.hfm() != 70 { return Err(("cast:mandatory".into(), format!("{}: mandatory trait not callable", what))); }
+            let got = [check!(g impl Ha), check!(g impl Hb), check!(g impl Hc)];
+            if got != [$wa, $wb, $wc] { return Err(("cast:decision".into(), format!("{}: check!(Ha, Hb, Hc) = {:?}, the filler enabled {:?}", what, got, [$wa, $wb, $wc]))); }
+            if $wa { if as_ref!(g impl Ha).map(|x| x.ha()) != Some(71) { return Err(("cast:dispatch".into(), format!("{}: Ha", what))); } }
+            if $wb { if as_ref!(g impl Hb).map(|x| x.hb()) != Some(72) { return Err(("cast:dispatch".into(), format!("{}: Hb", what))); } }
+            if $wc { if as_ref!(g impl Hc).map(|x| x.hc()) != Some(73) { return Err(("cast:dispatch".into(), format!("{}: Hc", what))); } }
+            Ok(digest(&got))
+        }
+    };
+}
+
+hand_filled!(HfNone, cell_gh_none_handfilled, [], [false, false, false], "group Gh {Ha,Hb,Hc} with a hand-written vtable filler enabling nothing in this order");
+hand_filled!(Hfa, cell_gh_a_handfilled, [HaVtbl => enable_ha], [true, false, false], "group Gh {Ha,Hb,Hc} with a hand-written vtable filler enabling Ha in this order");
+hand_filled!(Hfb, cell_gh_b_handfilled, [HbVtbl => enable_hb], [false, true, false], "group Gh {Ha,Hb,Hc} with a hand-written vtable filler enabling Hb in this order");
+hand_filled!(Hfc, cell_gh_c_handfilled, [HcVtbl => enable_hc], [false, false, true], "group Gh {Ha,Hb,Hc} with a hand-written vtable filler enabling Hc in this order");
+hand_filled!(Hfab, cell_gh_ab_handfilled, [HaVtbl => enable_ha, HbVtbl => enable_hb], [true, true, false], "group Gh {Ha,Hb,Hc} with a hand-written vtable filler enabling Ha then Hb in this order");
+hand_filled!(Hfba, cell_gh_ba_handfilled, [HbVtbl => enable_hb, HaVtbl => enable_ha], [true, true, false], "group Gh {Ha,Hb,Hc} with a hand-written vtable filler enabling Hb then Ha in this order");
+hand_filled!(Hfac, cell_gh_ac_handfilled, [HaVtbl => enable_ha, HcVtbl => enable_hc], [true, false, true], "group Gh {Ha,Hb,Hc} with a hand-written vtable filler enabling Ha then Hc in this order");
+hand_filled!(Hfca, cell_gh_ca_handfilled, [HcVtbl => enable_hc, HaVtbl => enable_ha], [true, false, true], "group Gh {Ha,Hb,Hc} with a hand-written vtable filler enabling Hc then Ha in this order");
+hand_filled!(Hfbc, cell_gh_bc_handfilled, [HbVtbl => enable_hb, HcVtbl => enable_hc], [false, true, true], "group Gh {Ha,Hb,Hc} with a hand-written vtable filler enabling Hb then Hc in this order");
+hand_filled!(Hfcb, cell_gh_cb_handfilled, [HcVtbl => enable_hc, HbVtbl => enable_hb], [false, true, true], "group Gh {Ha,Hb,Hc} with a hand-written vtable filler enabling Hc then Hb in this order");
+hand_filled!(Hfabc, cell_gh_abc_handfilled, [HaVtbl => enable_ha, HbVtbl => enable_hb, HcVtbl => enable_hc], [true, true, true], "group Gh {Ha,Hb,Hc} with a hand-written vtable filler enabling Ha then Hb then Hc in this order");
+hand_filled!(Hfacb, cell_gh_acb_handfilled, [HaVtbl => enable_ha, HcVtbl => enable_hc, HbVtbl => enable_hb], [true, true, true], "group Gh {Ha,Hb,Hc} with a hand-written vtable filler enabling Ha then Hc then Hb in this order");
+hand_filled!(Hfbac, cell_gh_bac_handfilled, [HbVtbl => enable_hb, HaVtbl => enable_ha, HcVtbl => enable_hc], [true, true, true], "group Gh {Ha,Hb,Hc} with a hand-written vtable filler enabling Hb then Ha then Hc in this order");
+hand_filled!(Hfbca, cell_gh_bca_handfilled, [HbVtbl => enable_hb, HcVtbl => enable_hc, HaVtbl => enable_ha], [true, true, true], "group Gh {Ha,Hb,Hc} with a hand-written vtable filler enabling Hb then Hc then Ha in this order");
+hand_filled!(Hfcab, cell_gh_cab_handfilled, [HcVtbl => enable_hc, HaVtbl => enable_ha, HbVtbl => enable_hb], [true, true, true], "group Gh {Ha,Hb,Hc} with a hand-written vtable filler enabling Hc then Ha then Hb in this order");
+hand_filled!(Hfcba, cell_gh_cba_handfilled, [HcVtbl => enable_hc, HbVtbl => enable_hb, HaVtbl => enable_ha], [true, true, true], "group Gh {Ha,Hb,Hc} with a hand-written vtable filler enabling Hc then Hb then Ha in this order");
+'''
+HANDFILL_CELLS = [('cell_gh_none_handfilled', 'Gh', [], [], 'Box', 'handfilled', True), ('cell_gh_a_handfilled', 'Gh', ['Ha'], ['Ha'], 'Box', 'handfilled', True), ('cell_gh_b_handfilled', 'Gh', ['Hb'], ['Hb'], 'Box', 'handfilled', True), ('cell_gh_c_handfilled', 'Gh', ['Hc'], ['Hc'], 'Box', 'handfilled', True), ('cell_gh_ab_handfilled', 'Gh', ['Ha', 'Hb'], ['Ha', 'Hb'], 'Box', 'handfilled', True), ('cell_gh_ba_handfilled', 'Gh', ['Hb', 'Ha'], ['Hb', 'Ha'], 'Box', 'handfilled', True), ('cell_gh_ac_handfilled', 'Gh', ['Ha', 'Hc'], ['Ha', 'Hc'], 'Box', 'handfilled', True), ('cell_gh_ca_handfilled', 'Gh', ['Hc', 'Ha'], ['Hc', 'Ha'], 'Box', 'handfilled', True), ('cell_gh_bc_handfilled', 'Gh', ['Hb', 'Hc'], ['Hb', 'Hc'], 'Box', 'handfilled', True), ('cell_gh_cb_handfilled', 'Gh', ['Hc', 'Hb'], ['Hc', 'Hb'], 'Box', 'handfilled', True), ('cell_gh_abc_handfilled', 'Gh', ['Ha', 'Hb', 'Hc'], ['Ha', 'Hb', 'Hc'], 'Box', 'handfilled', True), ('cell_gh_acb_handfilled', 'Gh', ['Ha', 'Hc', 'Hb'], ['Ha', 'Hc', 'Hb'], 'Box', 'handfilled', True), ('cell_gh_bac_handfilled', 'Gh', ['Hb', 'Ha', 'Hc'], ['Hb', 'Ha', 'Hc'], 'Box', 'handfilled', True), ('cell_gh_bca_handfilled', 'Gh', ['Hb', 'Hc', 'Ha'], ['Hb', 'Hc', 'Ha'], 'Box', 'handfilled', True), ('cell_gh_cab_handfilled', 'Gh', ['Hc', 'Ha', 'Hb'], ['Hc', 'Ha', 'Hb'], 'Box', 'handfilled', True), ('cell_gh_cba_handfilled', 'Gh', ['Hc', 'Hb', 'Ha'], ['Hc', 'Hb', 'Ha'], 'Box', 'handfilled', True)]
+
+
 def family_crate(out_dir, crate, gname, mandatory_list, optional, aliases=None, containers=("Box", "Mut", "Ref"), fwd_of=None, extra=None):
     cells, layouts = [], []
     mand = mandatory_list[0] if len(mandatory_list) == 1 else None
@@ -459,7 +519,7 @@ def main():
         tot[1] += r[1]
     for n in range(1, 5):
         add(family_crate(out_dir, "hg_gn%d" % n, "Gn%d" % n, ["Gm"], OPT[:n]))
-    add(family_crate(out_dir, "hg_gopt", "Gopt", [], OPT[:2], extra=(SELFRET_SRC, SELFRET_CELLS)))
+    add(family_crate(out_dir, "hg_gopt", "Gopt", [], OPT[:2], extra=(SELFRET_SRC + HANDFILL_SRC, SELFRET_CELLS + HANDFILL_CELLS)))
     add(family_crate(out_dir, "hg_gali", "Gali", ["Gm"], ["TtUsize", "TtU64"], aliases={"TtUsize": "Tt<usize> = TtUsize", "TtU64": "Tt<u64> = TtU64"}))
     add(family_crate(out_dir, "hg_gmut", "Gmut", ["Hm"], MOPT, containers=("Box", "Mut")))
     # mandatory and optional traits declared out of name order
